@@ -50,6 +50,7 @@ class Builder:
         self.allow_const_view = False
         self.views_tensors_only = False
         self.recency_bias = True
+        self.allow_empty = False
 
     # ---- low-level emit
     def _emit(self, st_):
@@ -74,6 +75,12 @@ class Builder:
         h = st_.get("h")
         if h is not None and st_["k"] == "op":
             v = self.ref.env[h]
+            if v.size == 0 and not self.allow_empty:
+                # empty intermediates are exercised per-op by C02; excluded (and counted) here
+                self.labels.add("excluded_empty_result")
+                self._undo_last_op(h)
+                self.ref.maxabs = snap_max
+                return False
             if v.size and (not np.all(np.isfinite(v)) or np.max(np.abs(v)) > MAXVAL):
                 self._undo_last_op(h)
                 self.ref.maxabs = snap_max
@@ -672,6 +679,8 @@ def step_nary(b: Builder):
                 break
             args.append(c)
             cur = np.broadcast_shapes(cur, b.shape(c))
+        if len(args) < 2:
+            return None
         return b.op(name, args, None, constant=draw_const_flag(b))
     if name == "einsum":
         return _einsum_step(b, a, fl)
